@@ -13,6 +13,7 @@
 #include <string>
 #include <vector>
 #include <dlfcn.h>
+#include <unistd.h>
 
 static std::map<std::string, std::string> inputs;
 static std::map<std::string, double> derivs;   // "idx:var" -> value
@@ -78,6 +79,17 @@ double verif_logged_value(const char *marker, int *found) {
   // native: the stub proxy writes the log to stdout, which also carries this runtime's protocol; logged values are not replayed natively
   *found = 0; return 0.0;
 }
+static std::vector<std::string> &tt() { static std::vector<std::string> *v = new std::vector<std::string>(); return *v; }
+#define token_texts tt()
+const char *verif_token_int(const char *name, long lo, long hi) { token_texts.push_back(std::to_string(verif_sym_int(name, lo, hi))); return token_texts.back().c_str(); }
+const char *verif_token_double(const char *name) { char b[64]; snprintf(b, 64, "%.17g", verif_sym_double(name)); token_texts.push_back(b); return token_texts.back().c_str(); }
+int verif_fs_exists(const char *name) { FILE *f = fopen(name, "rb"); if (f) { fclose(f); return 1; } return 0; }
+long verif_fs_size(const char *name) { FILE *f = fopen(name, "rb"); if (!f) return 0; fseek(f, 0, SEEK_END); long n = ftell(f); fclose(f); return n; }
+void verif_fs_put(const char *name, const char *data, long n) { FILE *f = fopen(name, "wb"); if (f) { fwrite(data, 1, n, f); fclose(f); } }
+void verif_fs_truncate(const char *name, long n) { if (truncate(name, n)) {} }
+void verif_fs_fail(const char *op, int times) { }
+void verif_fs_trace_begin(void) { }
+int verif_fs_crash_consistent(const char *name, const char *backup) { return 0; }   // crash points are examined on the interpreter's operation trace only
 long verif_param(const char *name, long dflt) { std::string k = std::string("param.") + name; if (has(k.c_str())) return strtol(inputs[k].c_str(), nullptr, 10); return dflt; }
 void verif_need_module(void) { static colvarproxy_stub *p = nullptr; if (!p && !cvm::main()) p = new colvarproxy_stub(); }
 }
